@@ -18,6 +18,8 @@ if snap and here != "/verif":
 res = []
 out = os.path.join(here, "sweep-%s-%d-%d.json" % (tier, a, b))
 os.makedirs(os.path.join(here, "sweep-out"), exist_ok=True)
+keep = "/dev/shm/sweep-keep"  # survives `vp stop` (which removes the snapshot)
+os.makedirs(keep, exist_ok=True)
 for seed in range(a, b + 1):
     for p in props:
         t0 = time.time()
@@ -29,6 +31,7 @@ for seed in range(a, b + 1):
             for m in re.finditer(r"replay=(\S+)", pr.stdout):
                 if os.path.exists(m.group(1)):
                     shutil.copy(m.group(1), os.path.join(here, "sweep-out", "%s-seed%d-%s" % (p, seed, os.path.basename(m.group(1)))))
+                    shutil.copy(m.group(1), os.path.join(keep, "%s-seed%d-%s" % (p, seed, os.path.basename(m.group(1)))))
             print("FAIL", p, "seed", seed, "exit", pr.returncode, flush=True)
             for l in lines:
                 print("   ", l[:600], flush=True)
